@@ -310,10 +310,16 @@ class Run:
                                "got": {"rejected_event": rj["i"], "history": upto}, "case": {"e": s["e"], "m": s["m"], "ds": s["ds"], "cs": s["cs"], "skel": s["skel"]}})
         nev = 0
         sample = None
+        nt = set()
         for line in open(trace):
             if sample is None:
                 sample = json.loads(line)
             nev += line.count('"op"')
+            # non-trivial: the fresh evaluation at the first slot is a non-empty node sequence or a scalar
+            i = line.find('"fresh":[')
+            if i >= 0 and not line.startswith('{"ids":[]}', i + 9):
+                nt.add(hashlib.sha1((line[line.find('"x":'):i] + line[line.find('"cs":'):line.find('"e":')]).encode()).hexdigest())
+        self.distinct_nt = getattr(self, "distinct_nt", 0) + len(nt)
         self.traces += nlines
         self.evaluations += nev
         if sample:
